@@ -411,7 +411,18 @@ class CloseSockets(Contract):
     def raises(self, c):
         return [(OSError, None)]
 
+    def effects(self, c):
+        # call mode: record the call (who closes what, with which unlink flag) and mark concrete listeners closed
+        st = c.st
+        unlink = c.a.get("unlink", SBool(True))
+        st.ghost["close_calls"] = list(st.ghost.get("close_calls", [])) + [(c.a["listeners"], c.ex.truth(unlink, st))]
+        for s in c.ex.concrete_items(st, c.a["listeners"]) or []:
+            if isinstance(s, Ref) and "g_closed" in st.obj(s).fields:
+                st.obj(s).fields["g_closed"] = SBool(True)
+
     def post(self, c):
+        if c.mode == "call":
+            return []
         layout, socks = c.g["layout"], c.g["socks"]
         unl = c.st.ghost.get("unlinked", [])
         want = ["U%d" % k for k, kind in enumerate(layout) if kind == "unix"] if c.ex.truth(c.a["unlink"], c.st) is TRUE or z3.is_true(c.ex.truth(c.a["unlink"], c.st)) else []
